@@ -26,19 +26,19 @@ CHECKS = {
                  "Deferred only in the PUBACK/PUBCOMP handlers on the looked-up entry (and at creation for QoS 0); PUBREC transfers, never "
                  "fires; lookups by the received identifier inside try/except KeyError with an effect-free miss branch; fired entries leave "
                  "their registry on the same path (at most once); removed entries are fired, transferred or re-registered (at least once); "
-                 "the wire identifier comes from the allocator, equals deferred.msgId, the registry key and the callback argument.",
+                 "the wire identifier comes from the allocator, equals deferred.msgId, the registry key and the callback argument. Premise checked first (rule 0 of this check): the framing lemma's premises (the rules of C03), since a packet that is mis-framed never reaches the handlers judged here.",
          "note": BASE_NOTE, "technique": "path-sensitive who-may-fire / pairing (typestate of Deferred and registry entry) + def-use identity"},
  "C06": {"text": "Path counting on the PUBLISH and PUBREL handlers of the subscriber-capable classes: replies and deliveries per QoS branch "
                  "on every path, exactly one PUBCOMP on every PUBREL path (hit or miss), delivery only after removal on the hit path, reply "
                  "identifier = received identifier (def-use), delivery argument order as documented, PUBACK/PUBREC/PUBCOMP emitted only in "
-                 "these network contexts, receive window touched only by PUBLISH (insert) and PUBREL (remove).",
+                 "these network contexts, receive window touched only by PUBLISH (insert) and PUBREL (remove). Premise checked first (rule 0 of this check): the framing lemma's premises (the rules of C03), since a packet that is mis-framed never reaches the handlers judged here.",
          "note": BASE_NOTE, "technique": "all-paths event counting per branch + who-may-emit table + def-use identity"},
  "C07": {"text": "Path rules on the subscribe/unsubscribe flows of the subscriber-capable classes: normalised topic shapes reach encode() "
                  "unmodified; each accepting path allocates the identifier, registers once under it, arms one timer, writes the stored bytes "
                  "once; SUBACK/UNSUBACK handlers look up by the received identifier (effect-free miss), fire once with the granted list / "
                  "identifier and remove the entry; the window rejection is an ordering comparison that the accepting path entails "
                  "(len(window) < current window) and whose rejecting path has no effect; lifecycle table: a window a non-clean loss keeps "
-                 "must be re-sent by the resume path and drained by the clean-start purge.",
+                 "must be re-sent by the resume path and drained by the clean-start purge. Premise checked first (rule 0 of this check): the framing lemma's premises (the rules of C03), since a packet that is mis-framed never reaches the handlers judged here.",
          "note": BASE_NOTE, "technique": "path-sensitive event pairing + guard entailment + lifecycle fact table (loss/resume/purge loops per registry)"},
  "C08": {"text": "Retry discipline on every abstract path: each retry-timer target resolves and, per path, writes its request's stored bytes once "
                  "and re-arms exactly its own timer for the same request; every entry into a timed window is sent and armed on the same path; DUP "
@@ -50,7 +50,7 @@ CHECKS = {
  "C09": {"text": "Who-may and ordering rules for the QoS 2 sender on every abstract path: PUBREL created/inserted only on the hit path of the PUBREC "
                  "handler; timer cancellation and removal from the publish window precede the first PUBREL write; element classes of the three "
                  "publisher registries; every retry callback armed with entries of its own registries only; release window emptied only by "
-                 "PUBCOMP/purge, publish window only by PUBACK/PUBREC/purge and filled only from the queue.",
+                 "PUBCOMP/purge, publish window only by PUBACK/PUBREC/purge and filled only from the queue. Premise checked first (rule 0 of this check): the framing lemma's premises (the rules of C03), since a packet that is mis-framed never reaches the handlers judged here.",
          "note": BASE_NOTE, "technique": "who-may-do table over trigger contexts + precedence (dominance) of events on paths"},
  "C10": {"text": "Window/queue discipline from the shape of the code on every path: window insertions only inside a refill loop bounded by a "
                  "re-evaluated len(window) < window test (or a counted loop in which every iteration occupies a slot: loop-budget rule); queue "
@@ -67,12 +67,12 @@ CHECKS = {
                  "CONNECTING, one timeout of `keepalive or 10`, request recorded, pending Deferred returned); the connect Deferred fired only "
                  "in the CONNACK handler and the timeout closure, exactly once on every handler path incl. exceptional ones (bounded table "
                  "index, no None/fired handles), with the right value and state per return code, timeout cancelled first; loss closure: "
-                 "clean-up, then IDLE, then exactly one onDisconnection(reason) iff a handler is set. Orderings as behaviour not explored.",
+                 "clean-up, then IDLE, then exactly one onDisconnection(reason) iff a handler is set. Orderings as behaviour not explored. Premise checked first (rule 0 of this check): the framing lemma's premises (the rules of C03), since a packet that is mis-framed never reaches the handlers judged here.",
          "note": BASE_NOTE, "technique": "all-paths event counting/ordering + hazard rule for unguarded indexing + handle typestate"},
  "C15": {"text": "Structural clauses of keepalive on every path: periodic call created/started only on an accepted CONNACK under keepalive != 0 "
                  "with period = CONNECT's keepalive (alias, unmodified); PINGREQ routine writes the stored bytes once and arms one deadline with "
                  "the same keepalive whose callback always closes; PINGRESP cancels+clears and is safe on None; loss stops/cancels both handles; "
-                 "PINGREQ written only from the periodic call/ping() while CONNECTED. All timing statements are NOT decided.",
+                 "PINGREQ written only from the periodic call/ping() while CONNECTED. All timing statements are NOT decided. Premise checked first (rule 0 of this check): the framing lemma's premises (the rules of C03), since a packet that is mis-framed never reaches the handlers judged here.",
          "note": BASE_NOTE + " Timing clauses are outside the family.", "technique": "alias (copy) propagation of the keepalive value + who-may-write + handle typestate"},
  "C11": {"text": "Exhaustiveness/identity on the loss closure of the three profile classes: under the clean-session test every Deferred-carrying "
                  "per-address registry (queue, publish, release, subscribe, unsubscribe windows) is drained by a whole-registry loop that "
@@ -102,7 +102,7 @@ CHECKS = {
  "C18": {"text": "Who-may-write table over all trigger contexts of all four classes: each write sends the whole encoding/stored buffer of one "
                  "client-to-broker PDU object; CONNECT only by connect() in IDLE and nothing else written in IDLE; DISCONNECT only by "
                  "disconnect() with a close after it; return to IDLE outside the loss closure closes the transport; loss closure writes "
-                 "nothing and cancels writing timers; W4 (no write reachable after DISCONNECT) is a recorded known finding.",
+                 "nothing and cancels writing timers; W4 (no write reachable after DISCONNECT) is a recorded known finding. Premise checked first (W0): every encoder produces the prescribed packet (the rules of C02).",
          "note": BASE_NOTE + " Transport liveness is not modelled.", "technique": "who-may-write table over event x trigger context + phase reachability"},
  "C03": {"text": "Premises of the framing lemma decided on the abstract paths of dataReceived for all four classes: framer state is the carry buffer "
                  "only; carry reassigned to carry[E:] on the same path as the dispatch of carry[:E] with the same E under len(carry) >= E; "
